@@ -115,8 +115,25 @@ func vModelReadUvarint(r *iostream.Reader) (uint64, error) {
 	if !vReadStep() {
 		return 0, vReadErr
 	}
-	return vNondet[uint64](), nil
+	v := vNondet[uint64]()
+	if 0 <= vUvarintN && vUvarintN < 4 {
+		vUvarints[vUvarintN] = v
+	}
+	vUvarintN++
+	return v, nil
 }
+
+// ghost: the first uvarint tokens read successfully since the stream was reset
+var (
+	vUvarints [4]uint64
+	vUvarintN int
+)
+
+// VUvarint returns the k-th uvarint token read since VResetStream (k < 4), VUvarints their number.
+func VUvarint(k int) uint64 { return vUvarints[k] }
+
+// VUvarints is the number of uvarint tokens read successfully since VResetStream.
+func VUvarints() int { return vUvarintN }
 
 //@ model iostream.(*Reader).ReadUint32 global
 func vModelReadUint32(r *iostream.Reader) (uint32, error) {
@@ -158,16 +175,29 @@ func vModelReadRange(r *iostream.Reader, fn func(i int, r *iostream.Reader) erro
 		return vReadErr
 	}
 	if vNondet[bool]() {
-		if err := fn(vNondet[int](), r); err != nil {
+		if vRangeDepth == 0 {
+			vAssume(vTopElems < 1<<40) // (a counter)
+			vTopElems++                // an element of an outermost range
+		}
+		vRangeDepth++
+		err := fn(vNondet[int](), r)
+		vRangeDepth--
+		if err != nil {
 			return err
 		}
 	}
 	return nil
 }
 
+// ghost: nesting depth of ReadRange delegates, and the number of elements of outermost ranges read so far
+var (
+	vRangeDepth int
+	vTopElems   int
+)
+
 // Exported views of the stream ghost state for contracts of other packages.
 func VReadFailed() bool      { return vReadFailed }
-func VResetStream(err error) { vReadFailed, vReadErr = false, err }
+func VResetStream(err error) { vReadFailed, vReadErr, vUvarintN = false, err, 0 }
 func VReadErr() error        { return vReadErr }
 
 //@ model io.ReadFull global
@@ -204,3 +234,11 @@ func VRewound(r *Reader) bool { return r.last == 0 && r.Offset == r.start }
 func VPlace(r *Reader, b *Buffer, s, pos int, prev int32) {
 	*r = Reader{buffer: b.buffer[s:], last: pos - s, Offset: prev, start: prev, x0: uint32(s), x1: uint32(len(b.buffer)), parent: b}
 }
+
+// VReaderOn reports that the reader was placed (Seek) on the whole of buffer b.
+func VReaderOn(r *Reader, b *Buffer) bool {
+	return r.parent == b && len(r.buffer) == len(b.buffer) && (len(b.buffer) == 0 || &r.buffer[0] == &b.buffer[0])
+}
+
+// VBytes is the buffer's byte array as it is now.
+func VBytes(b *Buffer) []byte { return b.buffer }
